@@ -39,34 +39,34 @@ type Job struct {
 
 // Finding is a violation with its (minimised) plan.
 type Finding struct {
-	Violation Violation `json:"violation"`
-	Plan      *Plan     `json:"plan"`
-	Original  *Plan     `json:"original"`
-	Journal   []string  `json:"journal_tail"`
-	JournalHash string  `json:"journal_hash"`
-	ShrinkExecs int     `json:"shrink_execs"`
+	Violation   Violation `json:"violation"`
+	Plan        *Plan     `json:"plan"`
+	Original    *Plan     `json:"original"`
+	Journal     []string  `json:"journal_tail"`
+	JournalHash string    `json:"journal_hash"`
+	ShrinkExecs int       `json:"shrink_execs"`
 }
 
 // WorkerOut is what a worker writes to Job.Out.
 type WorkerOut struct {
-	Engine       string                    `json:"engine"`
-	Runs         int                       `json:"runs"`
-	NonTrivial   int                       `json:"nontrivial"`
-	Fingerprints []string                  `json:"fingerprints"`
-	Counters     map[string]int64          `json:"counters"`
-	PerScenario  map[string]int            `json:"per_scenario"`
-	SimNanos     int64                     `json:"sim_nanos"`
-	SimSeconds   float64                   `json:"sim_seconds"`
-	Steps        int64                     `json:"steps"`
-	Samples      []map[string]any          `json:"samples"`
-	Findings     []Finding                 `json:"findings"`
-	Troubles     []string                  `json:"troubles"`
-	OtherProps   map[string]int            `json:"other_props"`
-	WallSec      float64                   `json:"wall_sec"`
-	InProgress   uint64                    `json:"in_progress_seed,omitempty"`
+	Engine             string              `json:"engine"`
+	Runs               int                 `json:"runs"`
+	NonTrivial         int                 `json:"nontrivial"`
+	Fingerprints       []string            `json:"fingerprints"`
+	Counters           map[string]int64    `json:"counters"`
+	PerScenario        map[string]int      `json:"per_scenario"`
+	SimNanos           int64               `json:"sim_nanos"`
+	SimSeconds         float64             `json:"sim_seconds"`
+	Steps              int64               `json:"steps"`
+	Samples            []map[string]any    `json:"samples"`
+	Findings           []Finding           `json:"findings"`
+	Troubles           []string            `json:"troubles"`
+	OtherProps         map[string]int      `json:"other_props"`
+	WallSec            float64             `json:"wall_sec"`
+	InProgress         uint64              `json:"in_progress_seed,omitempty"`
 	InProgressScenario string              `json:"in_progress_scenario,omitempty"`
-	ReplayResults []*Result                `json:"replay_results,omitempty"`
-	SelfcheckHashes map[string][]string    `json:"selfcheck_hashes,omitempty"`
+	ReplayResults      []*Result           `json:"replay_results,omitempty"`
+	SelfcheckHashes    map[string][]string `json:"selfcheck_hashes,omitempty"`
 }
 
 // SeedFor derives the i-th run seed of a batch.
